@@ -511,7 +511,7 @@ int main(int argc, char **argv) {
     enumerate_real();
     randoms(nrandom, seed);
     enumerate_t();
-    randoms_t(nrandom / 3, seed);
+    randoms_t(c07_thorough ? nrandom / 6 : nrandom / 3, seed);
   }
   c07_fini();
   return 0;
